@@ -24,6 +24,7 @@ operation of the same kind.
 -/
 import DafRel.Lemmas.Build
 import DafRel.Bridge.Kernel
+import DafRel.Bridge.Ops
 
 namespace DafRel.Props.C20
 
@@ -158,6 +159,18 @@ theorem unsupported_calculation (tag : Tag) (e : Expr) (t : Rel)
     (h : (UOp.calc tag e).isSupportedBy t.engine.kind = false) :
     (UOp.calc tag e).finishApply t = .error .engine := by
   cases t <;> (unfold UOp.finishApply; simp [UOp.noopOn, UOp.simplify, UOp.construct, h])
+
+/-- The `_begin_apply` checks of Calculation, Projection, Selection, Slice and Sort, as translated
+from the current Python source on this run (translator T-e), are the model's `UOp.beginApply`. -/
+theorem bridge_begin_apply_methods (t : Rel) (pref : Option Engine) :
+    (∀ tag e, Gen.Calculation_begin_apply tag e t.columns t.engine pref = (UOp.calc tag e).beginApply t pref) ∧
+    (∀ c, Gen.Projection_begin_apply c t.columns t.engine pref = (UOp.proj c).beginApply t pref) ∧
+    (∀ p, Gen.Selection_begin_apply p t.columns t.engine pref = (UOp.sel p).beginApply t pref) ∧
+    (∀ s e, Gen.Slice_begin_apply s e t.columns t.engine pref = (UOp.slice s e).beginApply t pref) ∧
+    (∀ ts, Gen.Sort_begin_apply ts t.columns t.engine pref = (UOp.sort ts).beginApply t pref) :=
+  ⟨fun tag e => Bridge.Calculation_begin_apply_eq tag e t pref, fun c => Bridge.Projection_begin_apply_eq c t pref,
+   fun p => Bridge.Selection_begin_apply_eq p t pref, fun s e => Bridge.Slice_begin_apply_eq s e t pref,
+   fun ts => Bridge.Sort_begin_apply_eq ts t pref⟩
 
 /-! ### Non-vacuity -/
 
